@@ -371,7 +371,11 @@ def detectXMLEncoding(fp, log=None, includeDefault=True):  # noqa: C901
     # go to beginning of file and get the first 4 bytes
     oldFP = fp.tell()
     fp.seek(0)
-    (byte1, byte2, byte3, byte4) = tuple(map(ord, fp.read(4)))
+    head = fp.read(4)
+    if isinstance(head, bytes):
+        # binary file object: keeps the byte values for BOM detection
+        head = head.decode('latin-1')
+    (byte1, byte2, byte3, byte4) = tuple(map(ord, head))
 
     # try bom detection using 4 bytes, 3 bytes, or 2 bytes
     bomDetection = bomDict.get((byte1, byte2, byte3, byte4))
@@ -396,6 +400,9 @@ def detectXMLEncoding(fp, log=None, includeDefault=True):  # noqa: C901
     # assume xml declaration fits into the first 2 KB (*cough*)
     fp.seek(0)
     buffer = fp.read(2048)
+    if isinstance(buffer, bytes):
+        # binary file object: the xml declaration is ASCII
+        buffer = buffer.decode('latin-1')
 
     # set up regular expression
     xmlDeclPattern = r"""
